@@ -180,4 +180,113 @@ Proof.
   rewrite eval_list_S_nil. rewrite bind_ret_l. exact H2.
 Qed.
 
+(** every variable is initialised with a literal [nil]: [local a, b = nil, nil] and
+    [local a, b] (the variables keep their order, so the same cells are bound to the same
+    names).  The general case, in which the variables of the [nil] values move behind the
+    others ([local a, b = nil, e] becomes [local b, a = e]), permutes the fresh cells and is
+    not covered: PARTIAL. *)
+Lemma eval_list_nils : forall k n rho va s vs s',
+  eval_list d n rho va (repeat ENil k) s = Ok vs s' -> vs = repeat VNil k /\ s' = s.
+Proof.
+  induction k as [|k IH]; intros n rho va s vs s' H; (destruct n as [|n]; [discriminate|]).
+  - cbn [repeat] in H. rewrite eval_list_S_nil in H. inv_ok H. subst; auto.
+  - cbn [repeat] in H. destruct k as [|k].
+    + cbn [repeat] in H. rewrite eval_list_S_one in H.
+      destruct n as [|n]; [discriminate|]. rewrite eval_S_nil in H. inv_ok H. subst; auto.
+    + change (repeat ENil (S k)) with (ENil :: repeat ENil k) in H. rewrite eval_list_S_cons in H.
+      apply bind_ok in H as (v & s1 & Hv & H). apply bind_ok in H as (ws & s2 & Hw & H). inv_ok H. subst.
+      apply IH in Hw as [-> ->].
+      destruct n as [|n]; [discriminate|]. rewrite eval1_S in Hv.
+      destruct n as [|n]; [discriminate|]. rewrite eval_S_nil in Hv.
+      apply bind_ok in Hv as (a & s0 & Ha & Hv). inv_ok Ha. inv_ok Hv. subst. auto.
+Qed.
+
+Lemma local_go_nils : forall xs k acc s, local_go xs (repeat VNil k) acc s = local_go xs [] acc s.
+Proof.
+  induction xs as [|x xs IH]; intros k acc s; [reflexivity|].
+  cbn [local_go]. assert (arg (repeat VNil k) 0 = arg [] 0) as -> by (destruct k; reflexivity).
+  apply bind_eq. intros a s1 _. destruct k as [|k]; [reflexivity|]. cbn [repeat tl]. rewrite IH. reflexivity.
+Qed.
+
+Lemma split_vars_nils : forall xs, split_vars xs (repeat ENil (List.length xs)) = ([], xs).
+Proof. induction xs as [|x xs IH]; [reflexivity|]. cbn [List.length repeat split_vars]. rewrite IH. reflexivity. Qed.
+
+Lemma filter_nils k : filter (fun e => negb (is_nil e)) (repeat ENil k) = [].
+Proof. induction k; [reflexivity|]. cbn. exact IHk. Qed.
+
+Lemma rw_nil_declaration_all_nil xs :
+  xs <> [] -> names_distinct (map param_name xs) = true ->
+  rw_nil_declaration (SLocal false xs (repeat ENil (List.length xs))) = SLocal false xs [].
+Proof.
+  intros Hne Hd. unfold rw_nil_declaration.
+  assert (firstn (List.length xs) (repeat ENil (List.length xs)) ++ filter hse (skipn (List.length xs) (repeat ENil (List.length xs)))
+          = repeat ENil (List.length xs)) as ->.
+  { rewrite firstn_all2 by (rewrite repeat_length; lia).
+    rewrite skipn_all2 by (rewrite repeat_length; lia). apply app_nil_r. }
+  rewrite repeat_length, Nat.ltb_irrefl, Hd. cbn [andb negb].
+  assert (existsb is_nil (repeat ENil (List.length xs)) = true) as ->.
+  { destruct xs; [congruence|]. reflexivity. }
+  cbn [negb]. rewrite split_vars_nils, filter_nils. reflexivity.
+Qed.
+
+Theorem nil_decl_partial : forall xs n rho va s r s',
+  xs <> [] -> names_distinct (map param_name xs) = true ->
+  exec_stmt d n rho va (SLocal false xs (repeat ENil (List.length xs))) s = Ok r s' ->
+  exec_stmt d n rho va (rw_nil_declaration (SLocal false xs (repeat ENil (List.length xs)))) s = Ok r s'.
+Proof.
+  intros xs n rho va s r s' Hne Hd H. rewrite (rw_nil_declaration_all_nil _ Hne Hd).
+  destruct n as [|n]; [discriminate|]. rewrite exec_stmt_S_local in *.
+  apply bind_ok in H as (vs & s1 & Hv & H).
+  destruct n as [|n]; [discriminate|]. rewrite eval_list_S_nil, bind_ret_l.
+  apply eval_list_nils in Hv as [-> ->].
+  unfold bind in *. rewrite local_go_nils in H. exact H.
+Qed.
+
 End Block.
+
+(** * The rewrites fire on concrete programs, which run *)
+
+Definition sident (x : string) : expr := EIdent (of_string x).
+Definition scall0 (f : string) : stmt := SCall (ECall (sident f) None (ATuple [])).
+Definition snum (z : Z) : expr := ENumber (NDec (to_bits (of_Z z)) None).
+
+(** [ext_a() do do return 1 end end ext_b() return 2] *)
+Example early_return_example :
+  let b := Block [scall0 "ext_a"; SDo (Block [SDo (Block [] (Some (LReturn [snum 1])))] None); scall0 "ext_b"]
+                 (Some (LReturn [snum 2])) in
+  let s := initial_store [] in
+  rw_early_return b = Block [scall0 "ext_a"; SDo (Block [SDo (Block [] (Some (LReturn [snum 1])))] None)] None /\
+  exists s', exec_block L51 20 [] [] b s = Ok (SigReturn [VNum (of_Z 1)]) s' /\
+             exec_block L51 20 [] [] (rw_early_return b) s = Ok (SigReturn [VNum (of_Z 1)]) s' /\
+             trace s' = [EvCall (of_string "ext_a") []].
+Proof. cbv zeta. split; [reflexivity|]. eexists. repeat split; vm_compute; reflexivity. Qed.
+
+(** [do end ext_a()] *)
+Example empty_do_example :
+  let b := Block [SDo (Block [] None); scall0 "ext_a"] None in
+  let s := initial_store [] in
+  rw_empty_do b = Block [scall0 "ext_a"] None /\
+  exists s', exec_block L51 20 [] [] b s = Ok SigNone s' /\
+             exec_block L51 19 [] [] (rw_empty_do b) s = Ok SigNone s'.
+Proof. cbv zeta. split; [reflexivity|]. eexists. split; vm_compute; reflexivity. Qed.
+
+(** [local t = {} function t:m(a) return self, a end return t:m(5)] and its rewriting
+    [function t.m(self, a) ...] return the same values *)
+Example method_def_example :
+  let f := FBody [Param (of_string "a") None] false None None None 0
+                 (Block [] (Some (LReturn [sident "self"; sident "a"]))) in
+  let prog st := Block [SLocal false [Param (of_string "t") None] [ETable []]; st]
+                       (Some (LReturn [ECall (sident "t") (Some (of_string "m")) (ATuple [snum 5])])) in
+  let st := SFunction (of_string "t") [] (Some (of_string "m")) f in
+  let s := initial_store [] in
+  rw_method_def st = SFunction (of_string "t") [of_string "m"] None (add_self f) /\
+  exists s1 s2 a, exec_block L51 30 [] [] (prog st) s = Ok (SigReturn [VTable a; VNum (of_Z 5)]) s1 /\
+                  exec_block L51 30 [] [] (prog (rw_method_def st)) s = Ok (SigReturn [VTable a; VNum (of_Z 5)]) s2.
+Proof. cbv zeta. split; [reflexivity|]. do 3 eexists. split; vm_compute; reflexivity. Qed.
+
+Example nil_decl_example :
+  let st := SLocal false [Param (of_string "a") None] [ENil] in
+  let s := initial_store [] in
+  exists s', exec_stmt L51 5 [] [] st s = Ok ([(of_string "a", 0)], SigNone) s' /\
+             exec_stmt L51 5 [] [] (rw_nil_declaration st) s = Ok ([(of_string "a", 0)], SigNone) s'.
+Proof. cbv zeta. eexists. split; vm_compute; reflexivity. Qed.
